@@ -113,7 +113,9 @@ def abstract_cfg(m):
     d = {"method": gc.type.name, "pipe": m.pipe_type.name, "fluid": m._fluid.fluid_type.name, "flow": m._design.flow_type.name,
          "maxbh": sp.max_boreholes, "cont": bool(sp.continue_if_design_unmet), "flow_rate": m._design.V_flow,
          "limits": (sp.max_EFT_allowable, sp.min_EFT_allowable, sp.max_height, sp.min_height, sp.end_month),
-         "fluid_state": (m._fluid.concentration_percent, m._fluid.temperature), "grout": (m._grout.k, m._grout.rhoCp),
+         "fluid_state": (m._fluid.concentration_percent, m._fluid.temperature),
+         # what the fluid IS (its physical properties), not only what it is called
+         "fluid_props": (float(m._fluid.rho), float(m._fluid.cp), float(m._fluid.mu), float(m._fluid.k)), "grout": (m._grout.k, m._grout.rhoCp),
          "soil": (m._soil.k, m._soil.rhoCp, m._soil.ugt), "bore": (m._borehole.D, m._borehole.r_b),
          "pipe_geo": (repr(m._pipe.r_in), repr(m._pipe.r_out), m._pipe.s, m._pipe.roughness, repr(m._pipe.k), m._pipe.rhoCp),
          "geom": {k: v for k, v in vars(gc).items() if k != "type"}, "loads_len": len(m._ground_loads), "loads_head": list(m._ground_loads[:5])}
